@@ -3020,8 +3020,10 @@ class Entity(MutableMapping[str, str]):
             return
         key = key.casefold()
         if key == 'targetname':
-            _remove_copyset(self.map.by_target, self._keys.get('targetname', None), self)
-            self.map.by_target[None].add(self)
+            # Look the value up case-insensitively, and only index entities that are in the map.
+            _remove_copyset(self.map.by_target, self['targetname'].casefold() or None, self)
+            if self in self.map.entities or self is self.map.spawn:
+                self.map.by_target[None].add(self)
 
         if key == 'classname':
             raise KeyError('Classnames cannot be deleted!')
